@@ -566,12 +566,33 @@ def in_f5_window(out, i):
     return False
 
 
+def timeouts_after_dispatch(out, i):
+    """how many of its own poll / condition-wait timeouts client i used after its reply had been processed (made ready) by any thread"""
+    q = out["seq_of"].get(i)
+    if q is None or q not in out["dispatch_time"] or q in out.get("dropped", []):
+        return 0
+    ev = out["events"]
+    disp = [k for k, e in enumerate(ev) if e[0] == "step" and len(e) > 3 and e[2] == "dispatch" and e[3] == q]
+    if not disp:
+        return 0
+    return sum(1 for e in ev[disp[0]:] if e[0] == "timeout" and e[1] == i)
+
+
 def oracle14(ctx, case, out, n_clients):
     if out["deadlock"]:
         ctx.violation("deadlock", case, observed=out["deadlock"][:300], expected="no deadlock", what="all threads blocked with no deadline")
         return
     if out["errors"]:
         ctx.violation("thread-raised", case, observed=out["errors"], expected="no exception", what="a thread raised")
+    # c14_late_waiter_returns_alone on the real trace: once its reply has been processed a waiter needs at most ONE timeout of its own
+    # (after it the loop test finds the result ready), whatever the other threads do meanwhile - also inside the known window
+    for i in range(n_clients):
+        n = timeouts_after_dispatch(out, i)
+        ctx.count("own-timeouts-after-dispatch:%d" % min(n, 2))
+        if n > 1:
+            ctx.violation("waiter-needed-more-than-one-timeout-after-its-reply-was-processed", case, observed={"client": i, "timeouts": n}, expected="at most 1",
+                          what="after its reply had been processed the waiter ran into %d timeouts of its own before it returned: it went back to "
+                               "waiting instead of testing its result (c14_late_waiter_returns_alone bounds this by one)" % n)
     for i, d in out["late"].items():
         if d > 0:
             # classify by what the waiter was blocked in when the clock had to advance after its reply was dispatched
@@ -748,6 +769,8 @@ def run_plans(ctx, which):
                 ctx.tie_broken("correspondence:final-state", "case %s model pcs %s ready %s inbox %s dispatched %s real dispatched %s" % (case, pcs, readys, inbox, disp, real_disp))
     ctx.coverage_extra["rule"] = ("random schedules (seeded, with varying stickiness) of 1-3 client threads plus an optional background serving thread and a scripted peer answering in a random order, "
                                   "line-level yields inside serve/_dispatch/_seq_request_callback/_async_request/_get_seq_id/wait/__call__/_bg_server and at every virtual blocking primitive; "
+                                  "C13 also: polling threads, raising callbacks, expiry with a slow peer, mixed traffic (peer requests, exception replies), and a peer request whose handler is busy for 5 virtual seconds "
+                                  "placed in the stream in front of a client's reply (a reply must not wait for a handler running in another thread); C14: own timeouts used after the reply was processed (<= 1); "
                                   "non-trivial = at least two threads share the connection")
 
 
